@@ -637,6 +637,23 @@ class Spec:
             return out
 
 
+def has_lower_py(n):
+    k = n[0]
+    if k in 'DCE': return True
+    if k == 'A': return False
+    if k == 'T': return has_lower_py(n[1])
+    return has_lower_py(n[1]) and has_lower_py(n[2])
+
+
+def can_integrate_py(n):
+    """mirror of the model's `canIntegrate`, used only for cases too large for the interpreted model"""
+    k = n[0]
+    if k in 'AM': return can_integrate_py(n[1]) and can_integrate_py(n[2])
+    if k == 'T': return has_lower_py(n[1])
+    if k == 'Z': return has_lower_py(n[1]) and has_lower_py(n[2])
+    return True
+
+
 def has_empty_product(n, spec):
     """some product node has no points"""
     k = n[0]
@@ -699,7 +716,7 @@ def run(c):
     if on('tables'): gens.append(('tables', stream_tables(c, tables, extract_err, quick)))
     if on('rules'): gens.append(('rules', stream_rules(c, quick)))
     if on('points'): gens.append(('points classes', stream_points_model(c, quick)))
-    if on('samples'): gens.append(('samples', stream_samples(c, 70 if quick else 1500)))
+    if on('samples'): gens.append(('samples', stream_samples(c, 70 if quick else 1000)))
     pending = []
     for name, g in gens:
         try:
@@ -1252,9 +1269,12 @@ def stream_samples(c, N):
                     wi.append(int(x)); vi.append(int(v))
                     W_int[(tag, e, kk)] = int(x); V_int[(tag, e, kk)] = int(v)
                 if b > a: tabs.append('%d %d:%s:%s' % (tag, e, ints(wi), ints(vi)))
-        mode = 'full' if S.npoints <= 24 and S.nelems <= 24 else 'lite' if S.npoints <= 300 else 'index'
+        # the Lean model is interpreted and recomputes sub-samples freely: only small cases are sent in full
+        haszip = contains(node, 'Z')
+        mode = ('full' if S.npoints <= 16 and S.nelems <= 16 else 'lite' if S.npoints <= (40 if haszip else 64) else
+                'index' if S.npoints <= (100 if haszip else 400) else 'none')
         c.count('model-mode:' + mode)
-        sreq.append('sample|%s|%s|%s' % (mode, expr, ';'.join(tabs) if mode != 'index' else ''))
+        sreq.append('sample|%s|%s|%s' % (mode, expr, ';'.join(tabs) if mode != 'index' else '') if mode != 'none' else 'gauss1|0')
         per_case.append(dict(data=data, W_int=W_int, V_int=V_int, mode=mode))
         tr = tree
         for op in gen.ops:
@@ -1287,11 +1307,13 @@ def stream_samples(c, N):
         c.sample(dict(expr=expr, nelems=int(S.nelems), npoints=int(S.npoints), spaces=[sp.kind for sp in spaces]))
         f = a.split('|')
         mode = pc['mode']
-        if len(f) != {'full': 10, 'lite': 8, 'index': 5}[mode]:
+        if mode == 'none':
+            f = ['1', '1' if can_integrate_py(node) else '0', str(S.nelems), str(S.npoints), None]
+        elif len(f) != {'full': 10, 'lite': 8, 'index': 5}[mode]:
             bad['index'] += 1
             c.broken_no_input('corr:sample-driver', 'driver answered %r' % a[:80], dict(request=rq[:2000])); continue
         mvalid, mcan, mnel, mnpt, midx = f[:5]
-        mpts, mwts, mnum = (f[5:8] if mode != 'index' else (None, None, None))
+        mpts, mwts, mnum = (f[5:8] if mode in ('full', 'lite') else (None, None, None))
         mbind, mwat = (f[8:10] if mode == 'full' else (None, None))
         replay = dict(expr=expr, spaces=[(sp.name, sp.kind) for sp in spaces], model=dict(nelems=mnel, npoints=mnpt, index=midx))
         # --- real index
@@ -1307,7 +1329,7 @@ def stream_samples(c, N):
             bad['partition'] += 1
             c.failing_input('index-not-a-partition', 'the getindex lists of %s do not partition range(npoints)' % type(S).__name__, replay); continue
         # correspondence: nelems, npoints, index
-        mlist = [[int(x) for x in l.split()] for l in midx.split(';')] if mnel != '0' else []
+        mlist = ridx if mode == 'none' else [[int(x) for x in l.split()] for l in midx.split(';')] if mnel != '0' else []
         if mvalid != '1':
             bad['index'] += 1; c.broken_no_input('corr:sample-valid', 'model says the real construction is invalid', replay); continue
         same = (int(mnel), int(mnpt)) == (S.nelems, S.npoints) and mlist == ridx
@@ -1334,7 +1356,7 @@ def stream_samples(c, N):
         # specification vs Lean model (keeps the oracle honest); per element as multisets when the order inside zipped elements differs
         sp_pts = [[fmt_pt(pt) for pt, wl in el] for el in elems]
         sp_wts = [[math.prod(pc['W_int'][lp] for lp in wl) for pt, wl in el] for el in elems]
-        if mode != 'index':
+        if mode in ('full', 'lite'):
             m_pts = [[x for x in l.split(',') if x] for l in mpts.split(';')] if sp_nel else []
             m_wts = [[int(x) for x in l.split()] for l in mwts.split(';')] if sp_nel else []
             pairs_s = [list(zip(a_, b_)) for a_, b_ in zip(sp_pts, sp_wts)]
